@@ -109,6 +109,7 @@ class Interp:
         self.depth = 0
         self.max_loop = 300
         self.specs_applied = False      # a loop specification of the unit has found its loop (on any path so far)
+        self.loop_headers_seen = {}     # "function#ordinal" -> header shape of the loops that got a specification at home
         self.log_calls = 0
         self.local_class_models = {}
         self.local_function_models = {}
@@ -637,6 +638,10 @@ class Interp:
                 return f(*args, **kwargs)       # engine / harness provided model (already bound)
             if not contains_sym(args) and not contains_sym(kwargs):
                 return self.native(f, *args, **kwargs)
+            if args and isinstance(args[0], tuple) and hasattr(args[0], "_fields") and f.__name__ in ("_asdict", "_replace"):
+                # NamedTuple helpers only move the field values around: safe on symbolic fields
+                r = self.native(f, *args, **kwargs)
+                return self.fresh(r) if isinstance(r, dict) else r
             raise Unsupported("call of external function %s.%s with symbolic arguments"
                               % (f.__module__, f.__qualname__))
         if type(f).__name__ == "_lru_cache_wrapper" and isinstance(getattr(f, "__wrapped__", None), types.FunctionType) \
@@ -853,8 +858,10 @@ class Interp:
         loc = self.bind_args(node.args, c.defaults, c.kwdefaults, args, kwargs, c.qualname)
         env = Env(loc, c.env, c.env.func, c.globals_, c.owner, c.env.cells, c.qualname)
         env.self_arg = c.env.self_arg
-        if not isinstance(node, ast.Lambda) and self.is_generator_node(node) and not getattr(c, "_run_now", False):
+        if not isinstance(node, ast.Lambda) and self.is_generator_node(node):
             return GenObj(c, args, kwargs)      # run in line where it is consumed (yield from)
+        if isinstance(node, ast.AsyncFunctionDef) and not getattr(self, "_awaiting_closure", False):
+            return CoroObj(c, args, kwargs)     # run when awaited
         return self.run_body(node, env)
 
     def call_class(self, cls, args, kwargs):
@@ -1186,22 +1193,43 @@ class Interp:
                 seen.add(x.attr)
         return seen
 
-    def _mentions(self, stmt, names, fnode=None):
-        """does the statement mention all the names - directly, or through a function defined locally in `fnode` that it
-        mentions (a loop whose body was partly moved into a nested helper)?"""
+    def _mentions(self, stmt, names, fnode=None, env=None):
+        """does the statement mention all the names - directly, or through a function it calls by name: one defined
+        locally in `fnode`, a function of the same module, a method of the same class (two levels deep)?  This is how a
+        loop whose body was partly moved into a helper is still recognised."""
         seen = getattr(stmt, "_mentioned", None)
-        if seen is None:
-            seen = self._names_in(stmt)
+        if seen is None or (env is not None and not getattr(stmt, "_mentioned_deep", False)):
+            seen = set(self._names_in(stmt))
             if fnode is not None:
                 local_defs = {x.name: x for x in ast.walk(fnode)
                               if isinstance(x, (ast.FunctionDef, ast.AsyncFunctionDef)) and x is not fnode}
-                for nm in list(seen):
-                    d = local_defs.get(nm)
-                    if d is not None and not any(y is stmt for y in ast.walk(d)):
-                        seen |= self._names_in(d)
+                frontier = set(seen)
+                for _depth in range(2):
+                    new = set()
+                    for nm in frontier:
+                        d = local_defs.get(nm)
+                        node = None
+                        if d is not None:
+                            if not any(y is stmt for y in ast.walk(d)):
+                                node = d
+                        elif env is not None:
+                            f = env.globals_.get(nm) if isinstance(env.globals_, dict) else None
+                            if not isinstance(f, types.FunctionType) and env.owner is not None:
+                                f = self.find_in_mro(env.owner, nm)
+                                f = getattr(f, "__func__", f)
+                            if isinstance(f, types.FunctionType) and self.is_repo_function(f):
+                                try:
+                                    node = self.node_of(getattr(f, "__wrapped__", f))
+                                except Unsupported:
+                                    node = None
+                        if node is not None and node is not fnode:
+                            more = self._names_in(node) - seen
+                            seen |= more
+                            new |= more
+                    frontier = new
                 stmt._mentioned = seen
-            else:
-                return all(n in seen for n in names)
+                if env is not None:
+                    stmt._mentioned_deep = True
         return all(n in seen for n in names)
 
     def _spec_home_intact(self, key, spec):
@@ -1226,6 +1254,34 @@ class Interp:
         cache[key] = ok
         return ok
 
+    @staticmethod
+    def header_fp(stmt):
+        """shape of a loop's header with every identifier erased: `for _ in _(0, 64)`, `while not _`, `while True`"""
+        import copy
+
+        def norm(n):
+            n = copy.deepcopy(n)
+            for x in ast.walk(n):
+                if isinstance(x, ast.Name):
+                    x.id = "_"
+            return ast.unparse(n)
+        if isinstance(stmt, (ast.For, ast.AsyncFor)):
+            return "for %s in %s" % (norm(stmt.target), norm(stmt.iter))
+        return "while %s" % norm(stmt.test)
+
+    PINNED_HEADERS = None
+
+    @classmethod
+    def pinned_headers(cls):
+        if cls.PINNED_HEADERS is None:
+            import json
+            p = os.path.join(os.path.dirname(os.path.dirname(os.path.abspath(__file__))), "loop_headers.lock.json")
+            try:
+                cls.PINNED_HEADERS = json.load(open(p))
+            except (OSError, ValueError):
+                cls.PINNED_HEADERS = {}
+        return cls.PINNED_HEADERS
+
     def loop_spec_for(self, env, stmt=None):
         """sidecar loop specification keyed by (function key, ordinal of the loop in source order).  A specification
         may also name anchors (identifiers the loop's text mentions): when the loop has been moved out of the function
@@ -1236,20 +1292,29 @@ class Interp:
             return None
         idx = self._loop_index_of(env.fnode)
         spec = self.loop_specs.get((env.qualname, idx.get(id(stmt))))
-        if spec is not None and (not getattr(spec, "anchor", None) or self._mentions(stmt, spec.anchor, env.fnode)):
+        if spec is not None and (not getattr(spec, "anchor", None) or self._mentions(stmt, spec.anchor, env.fnode, env)):
+            # at home.  The header the specification was written against is pinned (loop_headers.lock.json); over a
+            # loop with another header (another iteration domain, another exit condition) the specification is as
+            # suspect as one that was moved: it has to be proved there before a failure is believed
+            hk = "%s#%s" % (env.qualname, idx.get(id(stmt)))
+            fp = self.header_fp(stmt)
+            self.loop_headers_seen[hk] = fp
+            was = self.pinned_headers().get(hk)
+            if was is not None and was != fp:
+                sym.ctx().ex.relocated[spec.name] = "%s:%d, whose header is now `%s` (pinned: `%s`)" % (env.qualname, stmt.lineno, fp, was)
             return spec
         for key, spec in self.loop_specs.items():
             anchor = getattr(spec, "anchor", None)
-            if not anchor or not self._mentions(stmt, anchor, env.fnode):
+            if not anchor or not self._mentions(stmt, anchor, env.fnode, env):
                 continue
-            if any(self._mentions(stmt, (a,), env.fnode) for a in getattr(spec, "avoid", ())):
+            if any(self._mentions(stmt, (a,), env.fnode, env) for a in getattr(spec, "avoid", ())):
                 continue
             if self._spec_home_intact(key, spec):
                 continue
             # the innermost loop of this function that mentions the anchors
             inner = False
             for other in env.fnode._loops.values():
-                if other is not stmt and self._mentions(other, anchor, env.fnode) and any(x is other for x in ast.walk(stmt)):
+                if other is not stmt and self._mentions(other, anchor, env.fnode, env) and any(x is other for x in ast.walk(stmt)):
                     inner = True
                     break
             if not inner:
@@ -1393,6 +1458,26 @@ class Interp:
             return self.with_plain(s, env, cm0)
         return self.with_plain(s, env, None)
 
+    def stdlib_cm(self, cm):
+        """contextlib.suppress / closing / nullcontext instances: their protocol in terms of the interpreter"""
+        import contextlib
+        if isinstance(cm, contextlib.suppress):
+            excs = tuple(cm._exceptions)
+
+            def s_exit(cls, value, tb):
+                return cls is not None and issubclass(cls, excs)
+            return (lambda: None), s_exit
+        if isinstance(cm, contextlib.closing):
+            thing = cm.thing
+
+            def c_exit(cls, value, tb):
+                self.call(self.get_attr(thing, "close"), (), {})
+                return False
+            return (lambda: thing), c_exit
+        if isinstance(cm, contextlib.nullcontext):
+            return (lambda: cm.enter_result), (lambda cls, value, tb: False)
+        return None
+
     def with_plain(self, s, env, cm0):
         exits = []
         try:
@@ -1400,8 +1485,12 @@ class Interp:
                 cm = cm0 if (i == 0 and cm0 is not None) else self.ev(item.context_expr, env)
                 if isinstance(cm, CtxGen):
                     raise Unsupported("generator-based context manager among several in one with statement")
-                enter = self.get_attr(cm, "__enter__")
-                exit_ = self.get_attr(cm, "__exit__")
+                std = self.stdlib_cm(cm)
+                if std is not None:
+                    enter, exit_ = std
+                else:
+                    enter = self.get_attr(cm, "__enter__")
+                    exit_ = self.get_attr(cm, "__exit__")
                 v = self.call(enter, (), {})
                 exits.append(exit_)
                 if item.optional_vars is not None:
@@ -1459,6 +1548,12 @@ class Interp:
             if v.started:
                 raise Unsupported("coroutine awaited twice")
             v.started = True
+            if isinstance(v.func, Closure):
+                self._awaiting_closure = True
+                try:
+                    return self.call_closure(v.func, v.args, v.kwargs)
+                finally:
+                    self._awaiting_closure = False
             key = self.key_of(v.func)
             c = self.contracts.get(key)
             if c is not None:
@@ -1568,7 +1663,7 @@ class Interp:
             raise Unsupported("assignment target %s" % t.__class__.__name__)
 
     def store_name(self, name, v, env):
-        if env.nonlocals and name in env.nonlocals:
+        if env.nonlocals and env.nonlocals != "comprehension" and name in env.nonlocals:
             e = env.parent
             while e is not None and name not in e.locals:
                 e = e.parent
@@ -1787,7 +1882,10 @@ class Interp:
 
     def e_NamedExpr(self, n, env):
         v = self.ev(n.value, env)
-        self.assign(n.target, v, env)
+        target_env = env
+        while target_env.nonlocals == "comprehension" and target_env.parent is not None:
+            target_env = target_env.parent      # PEP 572: the name is bound in the scope containing the comprehension
+        self.assign(n.target, v, target_env)
         return v
 
     def e_BoolOp(self, n, env):
@@ -2102,6 +2200,9 @@ class Interp:
                 self.py_raise(RuntimeError, "super(): no arguments")
             return SuperProxy(env.owner, env.self_arg)
         f = self.ev(fnode, env)
+        if (f is next or f is any or f is all) and n.args and isinstance(n.args[0], ast.GeneratorExp) and not n.keywords \
+                and (f is next or any(isinstance(x, ast.NamedExpr) for x in ast.walk(n.args[0]))):
+            return self.lazy_genexp_call(f, n, env)
         args = []
         for a in n.args:
             if isinstance(a, ast.Starred):
@@ -2165,7 +2266,40 @@ class Interp:
                     rec(gens[1:], e)
         sub = Env({}, env, env.func, env.globals_, env.owner, env.cells, env.qualname)
         sub.self_arg = env.self_arg
+        sub.fnode = env.fnode
+        sub.nonlocals = "comprehension"
         rec(n.generators, sub)
+
+    def lazy_genexp_call(self, f, n, env):
+        """next(<genexp>[, default]) and any / all over a generator expression that binds names (walrus): the elements
+        are produced one at a time and production stops where CPython stops"""
+        class _Enough(BaseException):
+            pass
+        g = n.args[0]
+        box = []
+
+        def emit(e):
+            v = self.ev(g.elt, e)
+            if f is next:
+                box.append(v)
+                raise _Enough()
+            t = self.test(v)
+            if (f is any and t) or (f is all and not t):
+                box.append(t)
+                raise _Enough()
+        try:
+            self._comp(g, env, emit)
+        except _Enough:
+            pass
+        if f is next:
+            if box:
+                return box[0]
+            if len(n.args) > 1:
+                return self.ev(n.args[1], env)
+            self.py_raise(StopIteration)
+        if len(n.args) > 1:
+            self.py_raise(TypeError, "%s() takes exactly one argument" % f.__name__)
+        return box[0] if box else (f is all)
 
     def e_ListComp(self, n, env):
         out = []
